@@ -304,7 +304,11 @@ def r5(ctx, chk):
            "first operation: %s" % sorted(vals), key={"function": f.key, "construct": "attach first"}, file=f.file,
            function=f.qual, line=first.lineno)
     # conversion to TIMEZONE only when it is not local
-    conv = [n for n in ast.walk(ifs[0]) if isinstance(n, ast.Call) and ast.unparse(n.func) == "apply_timezone" and n in ast.walk(ast.Module(body=blk, type_ignores=[]))]
+    # every conversion of the value to settings.TIMEZONE, wherever in the function it is written
+    conv = [n for n in iter_own_nodes(f.node) if isinstance(n, ast.Call) and ast.unparse(n.func) == "apply_timezone" and len(n.args) == 2
+            and ast.unparse(n.args[1]).endswith(".TIMEZONE")]
+    if not conv:
+        chk.error(rule, "DateParser.parse: no apply_timezone(<value>, settings.TIMEZONE) found (whether TIMEZONE is applied at all is C12.R3's obligation)")
     ok = True
     for cnode in conv:
         guarded = False
@@ -314,7 +318,7 @@ def r5(ctx, chk):
                         (p and isinstance(a.ops[0], ast.NotIn)) or (not p and isinstance(a.ops[0], ast.In))):
                     guarded = True
         ok = ok and guarded
-    chk.ob(rule, "a string-supplied zone is converted to TIMEZONE only when TIMEZONE is not 'local'", ok and bool(conv), "",
+    chk.ob(rule, "a string-supplied zone is converted to TIMEZONE only when TIMEZONE is not 'local'", ok, "",
            key={"function": f.key, "construct": "conversion guarded by not-local"}, file=f.file, function=f.qual,
            line=ifs[0].lineno)
     # R6: awareness
